@@ -120,10 +120,11 @@ def run(task, ctx):
     # cases that can make a decoder allocate beyond its input); 16-bit
     # sweeps are measured in thorough only
     kinds = ('rewrite', 'truncate', 'shapes', 'short', 'large',
-             'nested-short')
+             'nested-short', 'siblings')
     if ctx.tier == 'thorough':
         kinds += ('byte',)
     memory = task[0] in kinds and (ctx.tier == 'thorough' or len(task) < 4)
+    # (a 'siblings' task is (kind, n): always measured)
     if memory:
         tracemalloc.start(1)
     elif tracemalloc.is_tracing():
